@@ -2,6 +2,7 @@ package harness
 
 import (
 	"fmt"
+	"os"
 	"regexp"
 	"strings"
 	"time"
@@ -107,6 +108,43 @@ func c16RunBatch(c *Ctx, cases []c16Case, idx *int) {
 		c.Count(cs.Handler + "|" + cs.Stream)
 		c.Violation(c16Sig(cs, res.Fail.Error()), fmt.Sprintf("handler %s, server bytes %s: %s", cs.Handler, c16Show(cs.Stream), res.Fail.Error()), c16Short(cs))
 		*idx++
+	}
+}
+
+// c16ConfigColours: the colours come from a JSON configuration file (the repository's own example file, which
+// spells colour names both as "Blue" and as "FgBlue" / "AttrDim") instead of the built-in defaults.
+func c16ConfigColours(c *Ctx) {
+	repo := os.Getenv("VERIF_REPO")
+	if repo == "" {
+		repo = "/repo"
+	}
+	cfgFile := repo + "/examples/dtail.json.example"
+	if _, err := os.Stat(cfgFile); err != nil {
+		return
+	}
+	recs := []string{"REMOTE|h|100|1|f|text", "REMOTE|h| 42|1|f|WARN x", "SERVER|h|ERROR|boom", "CLIENT|h|FATAL|x", "CLIENT|h|WARN|w", "AGGREGATE|h|k∥1∥count(x)≔1∥sum(y)≔2∥", "plain text\n", "REMOTE|h|100|1|f|ERROR in red?"}
+	res := vrt.Run(vrt.Config{MaxSteps: 1 << 40, Horizon: 100000 * time.Hour}, func() {
+		args := DefaultArgs()
+		args.Logger = "stdout"
+		args.LogLevel = "info"
+		args.ConfigFile = cfgFile
+		StartEnv(source.Client, &args, nil)
+		for _, h := range []string{"client", "mapr", "mapr-orderby-field"} {
+			for _, r := range recs {
+				cs := c16Case{Handler: h, Stream: r + c16Delim}
+				plain := c16Feed(cs, false)
+				col := c16Feed(cs, true)
+				c.Count("config-file-colours|" + h + "|" + r)
+				if a, b := sgr.ReplaceAllString(col, ""), sgr.ReplaceAllString(plain, ""); a != b {
+					c.Violation("colouring-alters-text-with-colours-from-the-configuration-file", fmt.Sprintf("colours taken from %s, handler %s, server bytes %q: coloured output without escape sequences %s != uncoloured %s",
+						"examples/dtail.json.example", h, cs.Stream, c16Show(a), c16Show(b)), cs)
+					return
+				}
+			}
+		}
+	})
+	if res.Fail != nil {
+		c.Violation(c16Sig(c16Case{}, res.Fail.Error()), "colours from the example configuration file: "+res.Fail.Error(), nil)
 	}
 }
 
@@ -345,12 +383,15 @@ func init() {
 		Rule: "server byte streams enumerated exhaustively: every message of <=4 (quick) / <=5 (thorough) tokens over a 22-token alphabet (incl. CR and CRLF) (record words, '|', '.', the hidden close message, numbers, severities, " +
 			"newline, the 0xAC message delimiter, the aggregate delimiters, an escape sequence), 30 well-formed/nearly well-formed records followed by every record or token, 5 records of 32-70 KB (alone, followed by a short record, split at the transport boundary), each record split across two Write calls " +
 			"at every byte; each stream is fed to the real ClientHandler, MaprHandler (three queries, incl. order by a plain field and limit; the result report is produced afterwards) and HealthHandler twice (colours off/on) under the controlled scheduler; oracle: no panic in any goroutine and " +
-			"strip(coloured) == strip(uncoloured) where strip removes SGR escape sequences (applied to both sides); non-trivial = the stream makes the client print something; " +
+			"strip(coloured) == strip(uncoloured) where strip removes SGR escape sequences (applied to both sides); the same for 8 records with the colours taken from the repository's example JSON configuration file; non-trivial = the stream makes the client print something; " +
 			"plus, under ALL schedules within two deviations: a stream with the hidden close message written to each handler while one or two other goroutines shut the handler down and a third reads its commands (the tear-down of a connection), and AGGREGATE messages of two servers arriving while the reporter reads the shared result set: no panic, no deadlock, every message counted once",
 		Assumptions: []string{"output goes through the real stdout logger into a virtual stdout; canonical schedule per stream (all schedules for the tear-down scenarios)"},
 		Run: func(c *Ctx) {
 			c16TearDown(c)
 			c16Contention(c)
+			if c.Shard == 0 {
+				c16ConfigColours(c)
+			}
 			all := c16Cases(c.Thorough())
 			var mine []c16Case
 			for _, cs := range all {
